@@ -315,3 +315,14 @@ func (node *Node) SimBuildAccept(chainId crypto.Hash, ts uint64, finalized bool)
 func (node *Node) SimConsensusThresholdBase(ts uint64) int {
 	return node.ConsensusThreshold(ts, true)
 }
+
+// SimTopoUnlocked reports whether the topology sequence lock is free right
+// now (used by the simulator to decide whether another chain loop of the same
+// node could run at this point).
+func (node *Node) SimTopoUnlocked() bool {
+	if node.TopoCounter.TryLock() {
+		node.TopoCounter.Unlock()
+		return true
+	}
+	return false
+}
